@@ -564,6 +564,9 @@ func paren(s string) string {
 
 // &T{k: literal, ...}: the name carries the type and every literal (non-string) field
 func (t *tr) composite(cl *ast.CompositeLit) string {
+	if s, ok := t.sliceLit(cl); ok { // []T{a, b} (units_ctor.go)
+		return s
+	}
 	var tname string
 	switch ty := cl.Type.(type) {
 	case *ast.MapType:
@@ -635,6 +638,9 @@ func (t *tr) composite(cl *ast.CompositeLit) string {
 }
 
 func (t *tr) call(c *ast.CallExpr) string {
+	if s := t.sliceCall(c); s != "" { // units whose slices have identity (units_ctor.go)
+		return s
+	}
 	if id, ok := c.Fun.(*ast.Ident); ok && !t.locals[id.Name] {
 		switch id.Name {
 		case "append":
@@ -1128,6 +1134,7 @@ func (u *unit) translate(fd *ast.FuncDecl, pkgs, funcs map[string]bool) fnOut {
 		params = append(params, "(recv : "+u.recvParam+")")
 	}
 	asg := assigned(fd.Body)
+	u.mutatedLocals(fd.Body, asg) // parameters re-bound by a mutating method statement (units_ctor.go)
 	for _, f := range fd.Type.Params.List {
 		ty := t.ltype(f.Type)
 		if len(f.Names) == 0 {
